@@ -68,7 +68,7 @@ MATRIX = _matrix()
 def streams(ctx):
     return [("matrix", len(MATRIX)), ("random", ctx.scale(200, 5000)), ("argparse_return", ctx.scale(150, 3000)),
             ("longdoc", ctx.scale(80, 1500)), ("shapes", ctx.scale(150, 3000)), ("big", ctx.scale(30, 500)), ("similar", ctx.scale(100, 1500)),
-            ("body_wins", ctx.scale(150, 2500))]
+            ("body_wins", ctx.scale(150, 2500)), ("few", ctx.scale(120, 2000))]
 
 
 def _snap_ir(intermediate_repr):
@@ -248,6 +248,11 @@ def gen_case(ctx, stream, idx):
                 p["default"] = r.choice(("x y", "nightly build of the day", "hello brave new world", "a b c d e f g"))
                 p["doc"] = irgen.rand_doc(r, r.randint(9, 16), stop=False)
         return ir
+    if stream == "few":
+        # the small end of the domain: no parameter at all (an empty signature is legal) or exactly one, with and without
+        # a return entry
+        return irgen.rand_ir(r, type_kinds=CORE_TKINDS, default_kinds=CORE_DKINDS, nparams=r.choice((0, 0, 1)),
+                             with_return=r.random() < 0.75)
     if stream == "similar":
         return irgen.similar_ir(r, type_kinds=CORE_TKINDS, default_kinds=CORE_DKINDS)
     if stream == "big":
